@@ -5,6 +5,7 @@ import NdcubeModel.Model.Collection
 import NdcubeModel.Model.Rebin
 import NdcubeModel.Model.Wrappers
 import NdcubeModel.Model.Table
+import NdcubeModel.Model.Fits
 
 /-!
 # Line-protocol driver
@@ -458,6 +459,33 @@ def opTable (j : Json) : R Json := do
   let xs ← field j "at" >>= asList asRat
   pure <| Json.mkObj [("values", listJson (optJson ratJson) (xs.map (interp1 t)))]
 
+/-! ## unwrap_wcs_to_fitswcs (C15) -/
+
+def asWrapper (j : Json) : R Wrapper :=
+  match optField j "sliced" with
+  | some a => (asList asItem a).map Wrapper.sliced
+  | none =>
+    match optField j "resampled" with
+    | some r => do
+      let f ← field r "factor" >>= asList asRat
+      let o ← field r "offset" >>= asList asRat
+      pure (.resampled f o)
+    | none => pure .unknown
+
+def opUnwrap (j : Json) : R Json := do
+  let crpix ← field j "crpix" >>= asList asRat
+  let cdelt ← field j "cdelt" >>= asList asRat
+  let pc ← field j "pc" >>= asList (asList asRat)
+  let naxis ← field j "naxis" >>= asList asNat
+  let chain ← field j "chain" >>= asList asWrapper
+  let base : Fits := { crpix := crpix, cdelt := cdelt, pc := pc, naxis := naxis }
+  match unwrap base chain with
+  | .error e => pure (errJson e)
+  | .ok (F, dropped) =>
+    let m := (F.cdelt.zip F.pc).map fun (c, row) => row.map fun x => c * x
+    pure <| Json.mkObj [("crpix", listJson ratJson F.crpix), ("matrix", listJson (listJson ratJson) m),
+      ("naxis", listJson natJson F.naxis), ("dropped", listJson Json.bool dropped)]
+
 def dispatch (j : Json) : R Json := do
   let op ← field j "op" >>= asStr
   match op with
@@ -473,6 +501,7 @@ def dispatch (j : Json) : R Json := do
   | "reordered" => opReordered j
   | "compound" => opCompound j
   | "table" => opTable j
+  | "unwrap" => opUnwrap j
   | _ => .error s!"unknown op {op}"
 
 def handleLine (line : String) : String :=
